@@ -234,11 +234,33 @@ pub struct World {
     // lock (unit cli)
     pub ghost stdout_bytes: Seq<u8>,             // bytes written to the process's standard output
     pub ghost lock_held: bool,
+    pub ghost midline: bool,                     // C20: some flush handed the listener a block that does not end at a line boundary
     pub ghost effects: nat,
     pub ghost bind_attempts: nat,                // attempts to bind the lock address
     pub ghost addr_in_use: bool,                 // another process holds the lock address right now                      // number of mutating application entry points entered
 }
 pub open spec fn flat(b: Seq<Vec<u8>>) -> Seq<u8> decreases b.len() { if b.len() == 0 { Seq::empty() } else { flat(b.drop_last()) + b.last()@ } }
+// C20: every buffer is a complete line (ends with a newline)
+#[verifier::opaque] pub open spec fn all_lines(b: Seq<Vec<u8>>) -> bool { forall|i: int| 0 <= i < b.len() ==> (#[trigger] b[i])@.len() > 0 && b[i]@.last() == 10u8 }
+pub open spec fn nl_terminated(s: Seq<u8>) -> bool { s.len() == 0 || s.last() == 10u8 }
+pub proof fn lemma_all_lines_empty(b: Seq<Vec<u8>>) requires b.len() == 0 ensures all_lines(b) { reveal(all_lines); }
+pub proof fn lemma_all_lines_push(b: Seq<Vec<u8>>, x: Vec<u8>) requires all_lines(b), x@.len() > 0, x@.last() == 10u8 ensures all_lines(b.push(x)) {
+    reveal(all_lines);
+    assert forall|i: int| 0 <= i < b.push(x).len() implies (#[trigger] b.push(x)[i])@.len() > 0 && b.push(x)[i]@.last() == 10u8 by { if i < b.len() { assert(b.push(x)[i] == b[i]); } }
+}
+// C20: a non-empty line buffer ends where the consumed prefix of the stream ends (opaque: used through the three lemmas below)
+#[verifier::opaque] pub open spec fn buf_at_end(buf: Seq<u8>, consumed: Seq<u8>) -> bool { buf.len() > 0 ==> consumed.len() > 0 && buf.last() == consumed.last() }
+pub proof fn lemma_buf_at_end_empty(buf: Seq<u8>, consumed: Seq<u8>) requires buf.len() == 0 ensures buf_at_end(buf, consumed) { reveal(buf_at_end); }
+// a read appended the same chunk to the line buffer and to the consumed prefix
+pub proof fn lemma_after_read(b0: Seq<u8>, b1: Seq<u8>, c0: Seq<u8>, c1: Seq<u8>)
+    requires b1 == b0 + read_chunk(b0, b1), c1 == c0 + read_chunk(b0, b1), buf_at_end(b0, c0),
+    ensures buf_at_end(b1, c1),
+{ reveal(buf_at_end); let ch = read_chunk(b0, b1); if ch.len() > 0 { assert(b1.last() == ch.last()); assert(c1.last() == ch.last()); } else { assert(b1 =~= b0); assert(c1 =~= c0); } }
+// a non-empty buffer at the end of a newline-terminated stream is a complete line
+pub proof fn lemma_line_at_eof(buf: Seq<u8>, consumed: Seq<u8>, rest: Seq<u8>, stream: Seq<u8>)
+    requires buf_at_end(buf, consumed), consumed + rest =~= stream, rest.len() == 0, nl_terminated(stream), buf.len() > 0,
+    ensures buf.last() == 10u8,
+{ reveal(buf_at_end); assert(consumed =~= stream); }
 pub proof fn lemma_flat_push(b: Seq<Vec<u8>>, x: Vec<u8>) ensures flat(b.push(x)) == flat(b) + x@ { assert(b.push(x).drop_last() =~= b); }
 
 // the bytes a read appended to its buffer
@@ -335,6 +357,8 @@ pub mod tokio {
                     final(self).consumed == old(self).consumed + read_chunk(old(buf)@, final(buf)@),
                     old(self).rest == read_chunk(old(buf)@, final(buf)@) + final(self).rest,
                     res matches Ok(k) ==> read_chunk(old(buf)@, final(buf)@).len() == k && (k == 0 ==> old(self).rest.len() == 0),
+                    // a completed read stops right after the delimiter, or at the end of the stream
+                    res matches Ok(k) ==> k > 0 ==> (final(buf)@.last() == d || final(self).rest.len() == 0),
             { unimplemented!() }
             // the same future polled and then dropped by select!: any prefix may already have been moved into buf (tokio docs: not cancel-safe w.r.t. buf)
             #[verifier::external_body]
@@ -413,7 +437,11 @@ impl path::PathBuf {
 pub mod fs {
     use vstd::prelude::*;
     use super::*;
-    pub struct File { pub ghost p: Seq<char>, pub ghost content: Seq<u8> }   // content: what the file held when it was opened for reading
+    pub struct File { pub ghost p: Seq<char>, pub ghost content: Seq<u8>, pub ghost pos: int }   // content: what the file held when it was opened for reading; pos: the write offset
+    // write(2) at offset pos: bytes already there are overwritten, bytes beyond the written range stay (only O_TRUNC removes them)
+    pub open spec fn overwrite(s: Seq<u8>, pos: int, d: Seq<u8>) -> Seq<u8> {
+        if pos == s.len() { s + d } else if pos + d.len() < s.len() { s.take(pos) + d + s.skip(pos + d.len()) } else { s.take(pos) + d }
+    }
     pub struct OpenOptions { pub ghost rd: bool, pub ghost wr: bool, pub ghost tr: bool, pub ghost cr: bool, pub ghost cn: bool }
     impl OpenOptions {
         #[verifier::external_body] pub fn new() -> (r: Self) ensures !r.rd && !r.wr && !r.tr && !r.cr && !r.cn { unimplemented!() }
@@ -428,7 +456,7 @@ pub mod fs {
             requires self.wr ==> recoverable(*old(w)),
             ensures
                 final(w).ptr == old(w).ptr, final(w).last == old(w).last, final(w).ptr_new == old(w).ptr_new, final(w).io_faults >= old(w).io_faults,
-                r matches Ok(f) ==> f.p == p.pview() && final(w).io_faults == old(w).io_faults && final(w).fs == old(w).fs.insert(p.pview(),
+                r matches Ok(f) ==> f.pos == 0 && f.p == p.pview() && final(w).io_faults == old(w).io_faults && final(w).fs == old(w).fs.insert(p.pview(),
                     if self.wr && (self.tr || !old(w).fs.dom().contains(p.pview())) { Seq::<u8>::empty() } else { old(w).fs[p.pview()] })
                     && (old(w).fs.dom().contains(p.pview()) || self.cr || self.cn) && !(self.cn && old(w).fs.dom().contains(p.pview())),
                 r is Err ==> final(w).fs == old(w).fs,
@@ -437,16 +465,17 @@ pub mod fs {
         { unimplemented!() }
     }
     impl File {
-        // std::io::Write::write_all: the file ends up holding the data, or (on failure / crash) an arbitrary prefix of it appended
+        // std::io::Write::write_all at the file's offset: the data replaces what was there, or (on failure / crash) an arbitrary prefix of it does
         #[verifier::external_body] pub fn write_all(&mut self, data: &[u8], Tracked(w): Tracked<&mut World>) -> (r: Result<(), std::io::Error>)
-            requires recoverable(*old(w)), old(w).fs.dom().contains(old(self).p),
+            requires recoverable(*old(w)), old(w).fs.dom().contains(old(self).p), 0 <= old(self).pos <= old(w).fs[old(self).p].len(),
             ensures
                 final(self).p == old(self).p, final(w).ptr == old(w).ptr, final(w).last == old(w).last, final(w).ptr_new == old(w).ptr_new,
                 final(w).fs.dom() == old(w).fs.dom(), forall|q: Seq<char>| q != old(self).p ==> final(w).fs[q] == old(w).fs[q],
-                r is Ok ==> final(w).fs[old(self).p] == old(w).fs[old(self).p] + data@ && final(w).io_faults == old(w).io_faults,
+                r is Ok ==> final(w).fs[old(self).p] == overwrite(old(w).fs[old(self).p], old(self).pos, data@) && final(w).io_faults == old(w).io_faults
+                    && final(self).pos == old(self).pos + data@.len(),
                 r is Err ==> final(w).io_faults == old(w).io_faults + 1,
-                // torn write: some prefix of the data was appended
-                exists|k: int| 0 <= k <= data@.len() && #[trigger] final(w).fs[old(self).p] == old(w).fs[old(self).p] + data@.take(k),
+                // torn write: some prefix of the data was written
+                exists|k: int| 0 <= k <= data@.len() && #[trigger] final(w).fs[old(self).p] == overwrite(old(w).fs[old(self).p], old(self).pos, data@.take(k)),
         { unimplemented!() }
     }
     #[verifier::external_body] pub fn read<P: PathLike + ?Sized>(p: &P, Tracked(w): Tracked<&mut World>) -> (r: Result<Vec<u8>, std::io::Error>)
